@@ -401,10 +401,14 @@ Definition parse_line (l : string) : option (stmt string tstmt) :=
 Fixpoint parse_lines (ls : list string) : code :=
   match ls with
   | [] => Some []
-  | l :: r => match parse_line l, parse_lines r with
-              | Some s, Some rest => Some (s :: rest)
-              | _, _ => None
-              end
+  | l :: r =>
+      match l with
+      | EmptyString => parse_lines r           (* blank lines are skipped *)
+      | _ => match parse_line l, parse_lines r with
+             | Some s, Some rest => Some (s :: rest)
+             | _, _ => None
+             end
+      end
   end.
 Definition parse_code (src : string) : code :=
   match src with
